@@ -31,3 +31,22 @@ fn k5_cycle_next_is_counter_mod_len() {
     let got2 = *s.next();
     assert!(got2 as usize == c.wrapping_add(1) % n, "C20: the next call gets the next counter value");
 }
+
+/// thorough tier: the same contract with the backend count enumerated up to 8 (still BOUNDED in that dimension)
+#[kani::proof]
+#[kani::unwind(10)]
+fn k5_cycle_next_upto8() {
+    let n: usize = kani::any();
+    kani::assume(n >= 1 && n <= 8);
+    let c: usize = kani::any();
+    let mut elements: Vec<u8> = Vec::new();
+    let mut i = 0u8;
+    while (i as usize) < n {
+        elements.push(i);
+        i += 1;
+    }
+    let s = State { elements, next: AtomicUsize::new(c) };
+    let got = *s.next();
+    assert!(got as usize == c % n, "C20: backend index == counter % len");
+    assert!(s.next.load(Ordering::Relaxed) == c.wrapping_add(1), "C20: counter advances by exactly one");
+}
